@@ -97,6 +97,16 @@ pub fn run(em: &mut Emitter, rng: &mut Rng, thorough: bool) {
     for a in (if thorough { 0u8 } else { 0x70 })..=255u8 { for b in 0..=255u8 { decode_case(em, 0, 0, &prim_tlv(0x0c, &[a, b]), Some(&[a, b])); } }
     for a in 0xe0..=0xefu8 { for &b in &cont { for &c in &cont { decode_case(em, 0, 2, &prim_tlv(0x0c, &[a, b, c]), Some(&[a, b, c])); } } }
     for a in 0xf0..=0xf8u8 { for &b in &cont { for &c in &cont { for &d in &cont { decode_case(em, 0, 2, &prim_tlv(0x0c, &[a, b, c, d]), Some(&[a, b, c, d])); } } } }
+    // a character cut short at the end of the string: every proper prefix of a three- or four-octet form, alone and after another character
+    for a in 0xf0..=0xf8u8 { for &b in &cont { for &c in &cont { for pre in [&b""[..], &b"a"[..], &[0xc3u8, 0xa9][..]] {
+        let mut v = pre.to_vec(); v.extend_from_slice(&[a, b, c]); decode_case(em, 0, (a % 3) as u8, &prim_tlv(0x0c, &v), Some(&v));
+        let mut data = vec![0x2c, 0x80]; data.extend(prim_tlv(0x04, &v[..v.len() - 2])); data.extend(prim_tlv(0x04, &v[v.len() - 2..])); data.extend_from_slice(&[0, 0]);
+        decode_case(em, 0, 0, &data, Some(&v));
+    } } } }
+    for a in 0xc2..=0xf8u8 { for &b in &cont { for pre in [&b"a"[..], &[0xe2u8, 0x82, 0xac][..]] {
+        let mut v = pre.to_vec(); v.push(a); decode_case(em, 0, 2, &prim_tlv(0x0c, &v), Some(&v));
+        v.push(b); decode_case(em, 0, 2, &prim_tlv(0x0c, &v), Some(&v));
+    } } }
     if thorough { for a in 0xe0..=0xefu8 { for b in 0..=255u8 { for c in [0x7fu8, 0x80, 0xbf, 0xc0] { decode_case(em, 0, 2, &prim_tlv(0x0c, &[a, b, c]), Some(&[a, b, c])); } } } }
     // primitive strings around the CER limit of 1000 content octets
     for cs in 0..4u8 { for n in [999usize, 1000, 1001] { for mode in 0..3u8 {
@@ -110,6 +120,7 @@ pub fn run(em: &mut Emitter, rng: &mut Rng, thorough: bool) {
                                                                 1 => *rng.pick(&['0', '9', ' ']), 2 => *rng.pick(&['A', 'z', '5', '?', '\'', ' ']), _ => *rng.pick(&['a', '\u{7f}', '\0', '~']) }).collect();
         let mut b = text.into_bytes();
         if rng.chance(1, 3) && !b.is_empty() { let k = rng.below(b.len() as u64) as usize; b[k] = if rng.bool() { rng.byte() } else { *rng.pick(&cont) }; }
+        if rng.chance(1, 6) && !b.is_empty() { let k = rng.below(b.len() as u64) as usize; b.truncate(k); }
         let k1 = rng.below(b.len() as u64 + 1) as usize; let k2 = rng.range(k1 as u64, b.len() as u64) as usize;
         let o = if rng.bool() { Os::Cons(rng.bool(), vec![Os::Prim(b[..k1].to_vec()), Os::Prim(b[k1..k2].to_vec()), Os::Cons(rng.bool(), vec![Os::Prim(b[k2..].to_vec())])]) }
                 else { split_os(rng, &b, 3) };
